@@ -286,31 +286,67 @@ func checkC07(c *Ctx, r *Report) {
 		})
 		r.Floor("C07.R5", n416, 1, "416 writes")
 		nMis := 0
-		eachInstr(f, func(in ssa.Instruction) {
+		isMismatchRet := func(in ssa.Instruction) (*ssa.Return, bool) {
 			ret, ok := in.(*ssa.Return)
 			if !ok || isRecoverReturn(ret) {
-				return
+				return nil, false
 			}
 			vals := retVals(ret)
+			if len(vals) == 0 {
+				return nil, false
+			}
 			u, ok := vals[len(vals)-1].(*ssa.UnOp)
 			if !ok {
-				return
+				return nil, false
 			}
 			gl, ok := u.X.(*ssa.Global)
-			if !ok || gl.Name() != "ErrIfRangeMismatch" {
-				return
+			return ret, ok && gl.Name() == "ErrIfRangeMismatch"
+		}
+		// the If-Range decision may sit in f itself or in a same-package helper f calls
+		for _, h := range pkgGroup(li, f) {
+			if h.Parent() != nil {
+				continue
 			}
-			nMis++
-			bad := ""
-			eachInstr(f, func(in2 ssa.Instruction) {
-				if isAnyHeaderSet(in2) && reachableInstr(in2, ret, nil) {
-					bad = c.InstrPos(in2)
+			eachInstr(h, func(in ssa.Instruction) {
+				ret, ok := isMismatchRet(in)
+				if !ok {
+					return
 				}
+				nMis++
+				// sites in f that stand for this return: the return itself, or the calls of the helper
+				var sites []ssa.Instruction
+				if h == f {
+					sites = []ssa.Instruction{ret}
+				} else {
+					for _, cs := range li.Callers[h] {
+						if cs.in.Parent() == f {
+							sites = append(sites, cs.in)
+						}
+					}
+				}
+				bad := ""
+				eachInstr(h, func(in2 ssa.Instruction) {
+					if isAnyHeaderSet(in2) && reachableInstr(in2, ret, nil) {
+						bad = c.InstrPos(in2)
+					}
+				})
+				okDom := len(sites) > 0
+				for _, site := range sites {
+					if h != f {
+						eachInstr(f, func(in2 ssa.Instruction) {
+							if isAnyHeaderSet(in2) && reachableInstr(in2, site, nil) {
+								bad = c.InstrPos(in2)
+							}
+						})
+					}
+					if errv == nil || !onlyWhenNil(f, site, errv, true) {
+						okDom = false
+					}
+				}
+				r.Check(bad == "", "C07.R5", fmt.Sprintf("If-Range mismatch return #%d leaves the response untouched", nMis), c.InstrPos(ret), "no Content-Range/Content-Length setter can execute before this return", "Content-Range/Content-Length is set at "+bad+" before the If-Range mismatch return: it leaks into the full 200 the caller sends next (the 200 path never clears it)")
+				r.Check(okDom, "C07.R5", fmt.Sprintf("If-Range mismatch return #%d only for a satisfiable range", nMis), c.InstrPos(ret), "on the err == nil side of SliceSize", "If-Range handling runs although the range was unsatisfiable")
 			})
-			r.Check(bad == "", "C07.R5", fmt.Sprintf("If-Range mismatch return #%d leaves the response untouched", nMis), c.InstrPos(ret), "no Content-Range/Content-Length setter can execute before this return", "Content-Range/Content-Length is set at "+bad+" before the If-Range mismatch return: it leaks into the full 200 the caller sends next (the 200 path never clears it)")
-			okDom := errv != nil && onlyWhenNil(f, ret, errv, true)
-			r.Check(okDom, "C07.R5", fmt.Sprintf("If-Range mismatch return #%d only for a satisfiable range", nMis), c.InstrPos(ret), "on the err == nil side of SliceSize", "If-Range handling runs although the range was unsatisfiable")
-		})
+		}
 		r.Floor("C07.R5", nMis, 2, "If-Range mismatch returns")
 	}
 
